@@ -186,12 +186,14 @@ PROPS["C07"]["runs"] += [{"name": "enc-then-dec-one-session-asan", "src": "h_enc
 
 PROPS["C17"] = {
     "level": "model_checking",
-    "claim": "explicit-state BFS over sequences of the exported sparse-matrix operations on two real matrices (insert, find+delete, clear, copy, copyrows/copycols with every index vector, the _opt variants into an empty destination, copy_filled_matrix with every order-preserving map, sparse->dense->sparse, free+reallocate) against a set model; after every step find <=> membership, idempotent insert, every row/column traversal lists exactly the members in increasing order forwards and backwards; run under AddressSanitizer and under the allocation tracker (freeing releases everything); entry blocks of 4 (hook) so that block exhaustion and recycling are reached",
+    "claim": "explicit-state BFS over sequences of the exported sparse-matrix operations on two real matrices (insert, find+delete, clear, copy, copyrows/copycols with every index vector, the _opt variants into an empty destination, copy_filled_matrix with every order-preserving map, sparse->dense->sparse, free+reallocate) against a set model; after every step find <=> membership, idempotent insert, every row/column traversal lists exactly the members in increasing order forwards and backwards; run under AddressSanitizer and under the allocation tracker (freeing releases everything); entry blocks of 4 (hook) so that block exhaustion and recycling are reached. Large matrices (real block size 1024): complete enumeration of 13 shapes (64x64 .. 1030x1030, 1x70000, 70000x1, 2x66000, 66000x2) x 6 fill patterns x 4 insertion orders, each followed by one fixed script of every operation (delete a third, re-insert, copy, copy over a used matrix, copyrows/copycols and the _opt variants with reversed and repeating index vectors, copy_filled_matrix into a larger matrix, sparse->dense with a reused dense matrix ->sparse into a used matrix, 1500 (thorough 6000) insert/delete cycles, two clears and refills) with the full structure compared with the set model after every step",
     "rule": "state = (entry sets of A and B, free-list length, block count) reached by an operation history; closure complete for the small dimension pairs, depth/state-capped (reported) for the larger ones",
-    "bounds": {"quick": "dimension pairs 1x2/1x2, 2x1/2x2, 2x2/2x2, 2x2/2x3, 1x3/2x3, 3x1/3x2, 1x4/1x4 to closure; 2x3/3x3 to depth 5", "thorough": "same to closure; 2x3/2x3 depth 10, 2x3/3x3 depth 7, 3x3/3x3 depth 6, 2x4/3x4 depth 6, 3x4/4x4 depth 5 or 10^6 states"},
+    "bounds": {"quick": "dimension pairs 1x2/1x2, 2x1/2x2, 2x2/2x2, 2x2/2x3, 1x3/2x3, 3x1/3x2, 1x4/1x4 to closure; 2x3/3x3 to depth 5; large: 13 shapes x 6 patterns x 4 orders (2 orders on shapes above 70000 cells)", "thorough": "large: all 312 scripts, also under ASan; small: same to closure; 2x3/2x3 depth 10, 2x3/3x3 depth 7, 3x3/3x3 depth 6, 2x4/3x4 depth 6, 3x4/4x4 depth 5 or 10^6 states"},
     "assumptions": ["library built with -DOPENFEC_VERIF -DOPENFEC_VERIF_SPARSE_BLOCK=4 (hook 744ff62): block size 4 instead of 1024", "_opt copies are only exercised into an empty destination (their internal clear is commented out upstream, so a non-empty destination is not an in-range use)"],
     "runs": [{"name": "sparse-asan", "src": "h_sparse.c", "variant": "asan", "lib_defs": ["-DOPENFEC_VERIF_SPARSE_BLOCK=4"]},
-             {"name": "sparse-trk", "src": "h_sparse.c", "variant": "trk", "lib_defs": ["-DOPENFEC_VERIF_SPARSE_BLOCK=4"]}],
+             {"name": "sparse-trk", "src": "h_sparse.c", "variant": "trk", "lib_defs": ["-DOPENFEC_VERIF_SPARSE_BLOCK=4"]},
+             {"name": "sparse-big-trk", "src": "h_sparse_big.c", "variant": "trk"},
+             {"name": "sparse-big-asan", "src": "h_sparse_big.c", "variant": "asan", "tiers": ["thorough"]}],
     "budget": {"quick": 600, "thorough": 5400},
 }
 
